@@ -711,14 +711,18 @@ func init() {
 			g.newRound(pairs)
 			sessions := c04Cases(Op{"cases": ro["sessions"]})
 			type live struct {
-				kind string
-				tag  string
-				name string
-				conn net.Conn
-				done chan struct{}
-				st   *models.ClientState
-				bc   *bufConn
-				res  map[string]interface{}
+				kind   string
+				tag    string
+				name   string
+				conn   net.Conn
+				done   chan struct{}
+				st     *models.ClientState
+				bc     *bufConn
+				res    map[string]interface{}
+				id     string // SASL request id
+				owner  *live  // SASL: the session whose connection this one shares
+				shared bool   // SASL: other sessions share this connection
+				out    []byte
 			}
 			lives := make([]*live, len(sessions))
 			for i, se := range sessions {
@@ -753,6 +757,19 @@ func init() {
 						_, _ = cl.conn.Write([]byte(se.str("line")))
 					}
 				case "sasl":
+					lv.id = se.str("id")
+					if se.boolean("same_conn") && i > 0 && lives[i-1].kind == "sasl" && (lives[i-1].conn != nil || lives[i-1].owner != nil) {
+						// back-to-back on the previous session's connection: the service
+						// handles it after the previous request, so it is not awaited here
+						owner := lives[i-1]
+						if owner.owner != nil {
+							owner = owner.owner
+						}
+						lv.owner = owner
+						owner.shared = true
+						_, _ = owner.conn.Write([]byte(se.str("line") + "\n"))
+						continue
+					}
 					c, err := net.Dial("unix", needSasl())
 					if err != nil {
 						lv.res["error"] = err.Error()
@@ -799,6 +816,9 @@ func init() {
 					cl.close()
 					delete(w.conns, lv.name)
 				case "sasl":
+					if lv.owner != nil {
+						continue // answered on the owner's connection, see below
+					}
 					if lv.conn == nil {
 						continue
 					}
@@ -821,9 +841,30 @@ func init() {
 						}
 					}
 					_ = lv.conn.Close()
+					lv.out = got
 					lv.res["wrote"] = b2s(got)
 					lv.res["how"] = how
 				}
+			}
+			// sessions that shared a SASL connection: each gets the answer lines carrying its id
+			for _, lv := range lives {
+				if lv.kind != "sasl" || (lv.owner == nil && !lv.shared) {
+					continue
+				}
+				src := lv
+				if lv.owner != nil {
+					src = lv.owner
+				}
+				var mine []byte
+				for _, l := range bytes.SplitAfter(src.out, []byte("\n")) {
+					f := bytes.Split(bytes.TrimRight(l, "\n"), []byte("\t"))
+					if len(f) >= 2 && string(f[1]) == lv.id {
+						mine = append(mine, l...)
+					}
+				}
+				lv.res["wrote"] = b2s(mine)
+				lv.res["how"] = src.res["how"]
+				lv.res["shared_conn"] = true
 			}
 			// give late requests (none on a correct tree) a moment, then read the record
 			time.Sleep(20 * time.Millisecond)
